@@ -214,6 +214,16 @@ impl Compiler {
         })
     }
 
+    /// Converts a position or a count to the (smaller) integer type that is used for it in the bytecode
+    /// Programs that do not fit are rejected
+    fn fit<T: TryFrom<usize>>(value: usize, what: &str) -> Result<T, Error> {
+        T::try_from(value).map_err(|_| {
+            Error::SyntaxError(format!(
+                "programma is te groot voor de virtuele machine (te veel {what})"
+            ))
+        })
+    }
+
     #[inline]
     fn emit_opcode(&mut self, op: OpCode) {
         self.instructions.push(op as u8);
@@ -283,7 +293,7 @@ impl Compiler {
                 }
             }
             Stmt::Let(name, value) => {
-                let symbol = self.symbols.define(name);
+                let symbol = self.symbols.define(name)?;
                 self.compile_expression(value)?;
                 let op = if symbol.scope == Scope::Global {
                     OpCode::SetGlobal
@@ -329,7 +339,7 @@ impl Compiler {
                     )),
                 }?;
                 self.emit_opcode(OpCode::Jump);
-                self.emit_u16(pos.try_into().unwrap());
+                self.emit_u16(Self::fit(pos, "instructies")?);
             }
         }
 
@@ -374,7 +384,7 @@ impl Compiler {
         const_value: isize,
         operator: &Operator,
     ) -> Result<(), Error> {
-        let idx_constant = self.add_constant(Object::int(const_value));
+        let idx_constant = self.add_constant(Object::int(const_value))?;
         let symbol = self.symbols.resolve(varname);
         match symbol {
             Some(symbol) => {
@@ -418,18 +428,18 @@ impl Compiler {
             }
             Expr::Float { value } => {
                 let obj = Object::float(*value, &mut self.gc);
-                let idx = self.add_constant(obj);
+                let idx = self.add_constant(obj)?;
                 self.emit_opcode(OpCode::Const);
                 self.emit_u16(idx);
             }
             Expr::Int { value } => {
-                let idx = self.add_constant(Object::int(*value));
+                let idx = self.add_constant(Object::int(*value))?;
                 self.emit_opcode(OpCode::Const);
                 self.emit_u16(idx);
             }
             Expr::String { value } => {
                 let obj = Object::string(value.as_str(), &mut self.gc);
-                let idx = self.add_constant(obj);
+                let idx = self.add_constant(obj)?;
                 self.emit_opcode(OpCode::Const);
                 self.emit_u16(idx);
             }
@@ -589,7 +599,7 @@ impl Compiler {
 
                 self.change_jump_operand_at(
                     pos_jump_if_false,
-                    self.instructions.len().try_into().unwrap(),
+                    Self::fit(self.instructions.len(), "instructies")?,
                 );
 
                 if let Some(alternative) = alternative {
@@ -604,7 +614,7 @@ impl Compiler {
                 }
 
                 // Change operand of last JumpIfFalse opcode to where we're currently at
-                self.change_jump_operand_at(pos_jump, self.instructions.len().try_into().unwrap());
+                self.change_jump_operand_at(pos_jump, Self::fit(self.instructions.len(), "instructies")?);
             }
             Expr::While { condition, body } => {
                 // TODO: Can we get rid of this now that empty block statement emit a NULL?
@@ -634,18 +644,18 @@ impl Compiler {
 
                 // emit jump instruction to loop condition
                 self.emit_opcode(OpCode::Jump);
-                self.emit_u16(pos_before_condition.try_into().unwrap());
+                self.emit_u16(Self::fit(pos_before_condition, "instructies")?);
 
                 // Update jump statement for when initial condition evaluated to false (should skip over entire loop)
                 self.change_jump_operand_at(
                     pos_jump_if_false,
-                    self.instructions.len().try_into().unwrap(),
+                    Self::fit(self.instructions.len(), "instructies")?,
                 );
 
                 // Update jump statements for every break statement inside this loop
                 let ctx = self.loop_contexts.pop().unwrap();
                 for ip in ctx.break_instructions {
-                    self.change_jump_operand_at(ip, self.instructions.len().try_into().unwrap());
+                    self.change_jump_operand_at(ip, Self::fit(self.instructions.len(), "instructies")?);
                 }
             }
             Expr::Function {
@@ -654,7 +664,7 @@ impl Compiler {
                 body,
             } => {
                 let symbol = if !name.is_empty() {
-                    Some(self.symbols.define(name))
+                    Some(self.symbols.define(name)?)
                 } else {
                     None
                 };
@@ -666,7 +676,7 @@ impl Compiler {
                 // Compile function in a new scope
                 self.symbols.new_context();
                 for p in parameters {
-                    self.symbols.define(p);
+                    self.symbols.define(p)?;
                 }
 
                 let pos_start_function = self.instructions.len();
@@ -686,17 +696,17 @@ impl Compiler {
                     self.emit_opcode(OpCode::Return);
                 }
 
-                self.change_jump_operand_at(pos_jump, self.instructions.len().try_into().unwrap());
+                self.change_jump_operand_at(pos_jump, Self::fit(self.instructions.len(), "instructies")?);
 
                 // Switch back to previous scope again
                 let num_locals = self.symbols.leave_context();
 
                 // Create function object and store as constant
                 let obj = Object::function(
-                    pos_start_function.try_into().unwrap(),
-                    num_locals.try_into().unwrap(),
+                    Self::fit(pos_start_function, "instructies")?,
+                    Self::fit(num_locals, "variabelen in een functie")?,
                 );
-                let idx = self.add_constant(obj);
+                let idx = self.add_constant(obj)?;
                 self.emit_opcode(OpCode::Const);
                 self.emit_u16(idx);
 
@@ -725,7 +735,7 @@ impl Compiler {
                     if let Some(builtin) = builtins::resolve(name) {
                         self.emit_opcode(OpCode::CallBuiltin);
                         self.emit_u8(builtin as u8);
-                        self.emit_u8(arguments.len().try_into().unwrap());
+                        self.emit_u8(Self::fit(arguments.len(), "argumenten")?);
                         break 'compile_call;
                     }
                 }
@@ -733,7 +743,7 @@ impl Compiler {
                 self.compile_expression(left)?;
                 self.pending_operands -= arguments.len();
                 self.emit_opcode(OpCode::Call);
-                self.emit_u8(arguments.len().try_into().unwrap());
+                self.emit_u8(Self::fit(arguments.len(), "argumenten")?);
             }
 
             Expr::Array { values } => {
@@ -743,7 +753,7 @@ impl Compiler {
                 }
                 self.pending_operands -= values.len();
                 self.emit_opcode(OpCode::Array);
-                self.emit_u16(values.len().try_into().unwrap());
+                self.emit_u16(Self::fit(values.len(), "elementen in een lijst")?);
             }
 
             Expr::Index { left, index } => {
@@ -758,19 +768,19 @@ impl Compiler {
         Ok(())
     }
 
-    fn add_constant(&mut self, obj: Object) -> u16 {
+    fn add_constant(&mut self, obj: Object) -> Result<u16, Error> {
         // re-use already defined constants
         if let Some(pos) = self
             .constants
             .iter()
             .position(|c| c.tag() == obj.tag() && c == &obj)
         {
-            return pos.try_into().unwrap();
+            return Self::fit(pos, "constanten");
         }
 
-        let idx = self.constants.len();
+        let idx = Self::fit(self.constants.len(), "constanten")?;
         self.constants.push(obj);
-        idx.try_into().unwrap()
+        Ok(idx)
     }
 }
 
